@@ -1359,12 +1359,37 @@ def e2e_eval(case: dict) -> _Collector:
             else:
                 n_before = 0
             sk = subject.overlay.get_id_algorithm(fmt).generate_secret_key()
-            attester.overlay.set_attestation_request_complete_callback(
-                lambda peer, name, h, f, from_peer=None: state.setdefault("hash", h))
-            subject.overlay.request_attestation(attester.my_peer, "attribute", sk, metadata={"id_format": fmt})
-            if not await pump(lambda: len(subject.overlay.database.get_all()) > n_before):
-                c.inconclusive = "attestation did not arrive at the subject within the turn limit"
-                return
+            if case.get("twin"):
+                # two requests to the same attester are outstanding at once (each with its own fresh key); the attester's
+                # user approves the second one first, so the answers come back in the opposite order
+                futs: dict = {}
+                attester.overlay.set_attestation_request_callback(
+                    lambda peer, name, meta: futs.setdefault(name, asyncio.get_event_loop().create_future()))
+                attester.overlay.set_attestation_request_complete_callback(
+                    lambda peer, name, h, f, from_peer=None: state.setdefault("hash:" + name, h))
+                sk2 = subject.overlay.get_id_algorithm(fmt).generate_secret_key()
+                subject.overlay.request_attestation(attester.my_peer, "attribute", sk, metadata={"id_format": fmt})
+                subject.overlay.request_attestation(attester.my_peer, "other", sk2, metadata={"id_format": fmt})
+                if not await pump(lambda: len(futs) == 2):
+                    c.inconclusive = "the two requests did not reach the attester within the turn limit"
+                    return
+                futs["other"].set_result(value if not hash_mode else (rivals[0] if rivals else b"other value"))
+                await pump(lambda: len(subject.overlay.database.get_all()) > n_before)
+                futs["attribute"].set_result(value)
+                if not await pump(lambda: len(subject.overlay.database.get_all()) > n_before + 1):
+                    c.fail("B7", "request_attestation:two_outstanding",
+                           f"two requests were outstanding and answered in the opposite order: "
+                           f"{len(subject.overlay.database.get_all()) - n_before} of 2 attestations reached the subject's wallet")
+                    return
+                if "hash:attribute" in state:
+                    state["hash"] = state["hash:attribute"]
+            else:
+                attester.overlay.set_attestation_request_complete_callback(
+                    lambda peer, name, h, f, from_peer=None: state.setdefault("hash", h))
+                subject.overlay.request_attestation(attester.my_peer, "attribute", sk, metadata={"id_format": fmt})
+                if not await pump(lambda: len(subject.overlay.database.get_all()) > n_before):
+                    c.inconclusive = "attestation did not arrive at the subject within the turn limit"
+                    return
             if "hash" not in state or not subject.overlay.database.get_attestation_by_hash(state["hash"]):
                 c.fail("B7", "request_attestation", "the attestation stored by the subject does not have the hash the "
                                                     "attester reported")
@@ -1416,7 +1441,7 @@ def e2e_eval(case: dict) -> _Collector:
 def _e2e_strategy(quick: bool, dup_mode: str = "none"):
     from hypothesis import strategies as st
     dup = {"none": st.none(), "all": st.just("all"), "mask": st.integers(1, 2 ** 32 - 1),
-           "range": st.none(), "range-dup": st.just("all"), "pre": st.none(), "swap": st.none()}[dup_mode]
+           "range": st.none(), "range-dup": st.just("all"), "pre": st.none(), "swap": st.none(), "twin": st.none()}[dup_mode]
     value = st.one_of(st.binary(max_size=40), st.text(max_size=20).map(lambda t: t.encode("utf-8")))
     exact = st.fixed_dictionaries({
         "part": st.just("e2e"), "seed": st.integers(0, 2 ** 32 - 1),
@@ -1424,7 +1449,7 @@ def _e2e_strategy(quick: bool, dup_mode: str = "none"):
         "value": value, "rivals": st.lists(value, min_size=1, max_size=3),
         "dup": dup, **({"pre": st.just("id_metadata_big")} if dup_mode == "pre" else {}),
         **({"swap": st.sampled_from([1, 2, 5, 0x55555555, 0xFFFFFFFF]) | st.integers(1, 2 ** 32 - 1)}
-           if dup_mode == "swap" else {})})
+           if dup_mode == "swap" else {}), **({"twin": st.just(1)} if dup_mode == "twin" else {})})
     rng = st.fixed_dictionaries({
         "part": st.just("e2e"), "seed": st.integers(0, 2 ** 32 - 1), "format": st.just("id_metadata_range_18plus"),
         "value": st.integers(18, 200).map(_int_to_value), "dup": dup})
@@ -1439,13 +1464,13 @@ def _hyp_e2e_shard(ctx: Ctx, shard: int, nshards: int, n: int) -> None:
         if _gave_up(ctx, c, "e2e", case):
             return
         ctx.case(case, not c.fails, cls="b:e2e/" + case["format"] + ("/dup" if case.get("dup") else "") +
-                 ("/swap" if case.get("swap") else "") +
+                 ("/swap" if case.get("swap") else "") + ("/twin" if case.get("twin") else "") +
                  ("/after-" + case["pre"] if case.get("pre") else ""))
         for v in c.fails.values():
             ctx.violation(v)
         if c.fails:
             raise c.first()
-    for mode in ("none", "all", "mask", "range", "range-dup", "pre", "swap"):
+    for mode in ("none", "all", "mask", "range", "range-dup", "pre", "swap", "twin"):
         hyp_run(ctx, "e2e:" + mode, _e2e_strategy(ctx.quick, mode), body, n, shrink_examples=6)
 
 
